@@ -63,7 +63,7 @@ PROPS = {
         translators=[['python3', 'translators/lua2coq.py']],
         theorems=['readonly_scripts_leave_node_unchanged', 'epoch_monotone', 'epoch_monotone_run', 'write_requires_owner', 'write_only_appends', 'height_unique_per_node',
                   'write_scan_is_early_stop', 'height_unique_per_node_sorted', 'height_unique_per_node_refuted',
-                  'quorums_intersect', 'calculate_quorum_is_intersecting', 'no_fork_refuted', 'lease_checkers_sound'],
+                  'quorums_intersect', 'calculate_quorum_is_intersecting', 'read_entries_sound', 'no_fork_sorted', 'no_fork_refuted', 'lease_checkers_sound'],
         classify=_c25_classes,
         nontrivial=lambda i, o: isinstance(o, list) and len(o) == 2 and o != [-777] and len(o[0]) > 0,
         rule='(a) the six Lua scripts are re-translated on every run (translators/lua2coq.py) and every theorem is '
@@ -77,10 +77,10 @@ PROPS = {
              'node (3 owners, epochs/heights around the current ones, ttl 1/50/1000 and clock steps around them, MAXLEN 1..3/100 '
              'with trim choices 0/1/2, data loss), stand-in vs interpreter. non-trivial = distinct input with a non-empty trace',
         assumptions=[
-            'PARTIAL: the system-level no_fork for the sorted-stream / full-scan variant is NOT proved; proved are the per-node '
-            'theorems (epoch monotone for all six scripts, write requires owner+epoch, the translated scan loop = early-stop '
-            'scan, uniqueness of heights under the stream-order hypothesis in list form), quorum intersection, and the '
-            'refutation of no_fork for the scripts as written (known finding L1)',
+            'no_fork is proved for the runs in which every node stream stays sorted by height, no node loses data and XTRIM never '
+            'evicts (no_fork_sorted, hypotheses sorted_run / n < 2q stated in the theorem); for the scripts and adapter as written '
+            'no_fork is REFUTED (no_fork_refuted, known finding L1: repair appends an older height after a newer one); the variant '
+            'with bounded data loss (disruption budget > 0) and with trimming is not proved',
             'Redis is MODELLED (string keys with expiry against a logical per-node clock, INCR, streams with XADD */XRANGE - +/'
             'XREVRANGE + - [COUNT]/XTRIM MAXLEN ~ with an arbitrary eviction choice, TIME, PEXPIRE, DEL, SET [NX] [PX]); no '
             'redis-server and no Lua interpreter exist in this sandbox: the Rust stand-in that answers the real adapter is '
